@@ -181,7 +181,9 @@ class ExpectedBase(RenderModel, FunctionSpec):
             run.oblige("call.join_with_limit.last_separator_ok", ls is None or is_str(ls))
             lim = kwargs.get("limit", 80)
             run.oblige("call.join_with_limit.limit_is_int", run._kind(lim) == "int")
-            return run.fresh("joined", "str")
+            r = run.fresh("joined", "str")
+            run.pre.setdefault("joins", []).append((t, r.t))
+            return r
 
         return {"pest.exceptions.join_with_limit": jwl}
 
@@ -195,6 +197,38 @@ class ExpectedBase(RenderModel, FunctionSpec):
         self.noraise_str(run, out, self.allow_none)
 
 
+def _says(run: Run, pre: Any, out: Any, word_exp: str, word_unexp: str, field: str) -> None:
+    """the names / labels recorded as expected are listed after `word_exp`, those recorded as unexpected after `word_unexp`
+    (C13: 'the rule names it lists as expected or unexpected'): the text is  [<word_unexp> J(unexpected)[; ]][<word_exp> J(expected)]
+    where J(x) is join_with_limit applied to exactly the recorded sequence (campaign 7: negated / flipped conditions in
+    expected() survived while the contract only said 'a non-empty str')."""
+    e, u = pre["exp"], pre["unexp"]
+    has_e, has_u = z3.Length(e["keys"]) > 0, z3.Length(u["keys"]) > 0
+    if not (isinstance(out, Sym) and out.k == "str"):
+        run.oblige("lists.nothing_recorded_iff_constant", z3.And(z3.Not(has_e), z3.Not(has_u)))
+        return
+    o = out.t
+    joins = pre.get("joins", [])
+    j_of = {}
+    for items, joined in joins:
+        for nm, d in (("e", e), ("u", u)):
+            if z3.is_true(z3.simplify(items == d[field])):
+                j_of[nm] = joined
+    we, wu = z3.StringVal(word_exp), z3.StringVal(word_unexp)
+    if len(joins) == 0:
+        run.oblige("lists.nothing_recorded_iff_constant", z3.And(z3.Not(has_e), z3.Not(has_u)))
+    elif len(joins) == 1 and "e" in j_of and "u" not in j_of:
+        run.oblige("lists.expected_only", z3.And(has_e, z3.Not(has_u), o == z3.Concat(we, j_of["e"])))
+    elif len(joins) == 1 and "u" in j_of and "e" not in j_of:
+        run.oblige("lists.unexpected_only", z3.And(has_u, z3.Not(has_e), o == z3.Concat(wu, j_of["u"])))
+    elif len(joins) == 2 and "e" in j_of and "u" in j_of:
+        # either order of the two parts is a faithful listing (the property does not fix it)
+        sep = z3.StringVal("; ")
+        run.oblige("lists.both", z3.And(has_e, has_u, z3.Or(o == z3.Concat(wu, j_of["u"], sep, we, j_of["e"]), o == z3.Concat(we, j_of["e"], sep, wu, j_of["u"]))))
+    else:
+        run.oblige("lists.joins_are_over_the_recorded_sequences", False, note=f"{len(joins)} join(s), recognised {sorted(j_of)}")
+
+
 class Expected(ExpectedBase):
     method = "expected"
 
@@ -202,6 +236,10 @@ class Expected(ExpectedBase):
         ExpectedBase.post(self, run, pre, out)
         if is_str(out):
             run.oblige("result.non_empty", z3.Length(z(out, "str")) > 0)
+        if isinstance(out, str):
+            run.oblige("lists.nothing_recorded_iff_constant", z3.And(z3.Length(pre["exp"]["keys"]) == 0, z3.Length(pre["unexp"]["keys"]) == 0))
+        else:
+            _says(run, pre, out, "expected ", "unexpected ", "keys")
 
 
 class ExpectedLabels(ExpectedBase):
@@ -212,6 +250,8 @@ class ExpectedLabels(ExpectedBase):
         ExpectedBase.post(self, run, pre, out)
         both_empty = z3.And(z3.Length(pre["exp"]["keys"]) == 0, z3.Length(pre["unexp"]["keys"]) == 0)
         run.oblige("result.none_iff_nothing_recorded", z3.BoolVal(out is None) == both_empty)
+        if out is not None and not isinstance(out, str):
+            _says(run, pre, out, "", "not ", "labels")
 
 
 class DetailedMessage(ExpectedBase):
